@@ -7,6 +7,7 @@
  *   qrsolve m n o <A: m*n> <B: m*o>  -> qrsolve rank=r x= <X: n*o> b= <B after the reflections: m*o>
  *   qr m n <A: m*n>                  -> qr rank=r q= <Q: m*m> r= <R: m*n>
  *   cal1 e <e00> <e10e01> <e11> <s0> <s1> <s2> <s3> <sdut>
+ *   cal1k k <same>                   the same with the measurements in units of the double k (magnitude sweep)
  *        one-port VNACAL_E12 calibration from four reflect standards s0..s3 (4 equations, 3 error
  *        terms: the over-determined path through _vnacommon_qrsolve), one frequency, with every
  *        measurement expressed in units of 2^e:  m = 2^e (e00 + e10e01 s / (1 - e11 s));
@@ -67,13 +68,16 @@ int main(void)
 	    int rank = _vnacommon_qr(a, q, r, m, n);
 	    printf("qr rank=%d q=", rank); pmat(q, m * m); printf(" r="); pmat(r, m * n); printf("\n");
 	    free(a); free(q); free(r);
-	} else if (strcmp(op, "cal1") == 0) {
-	    int e; if (scanf("%d", &e) != 1) return 2;
+	} else if (strcmp(op, "cal1") == 0 || strcmp(op, "cal1k") == 0) {
+	    /* cal1k: same with an arbitrary (decimal) unit k instead of 2^e */
+	    int e = 0; double kk = 1.0;
+	    if (strcmp(op, "cal1") == 0) { if (scanf("%d", &e) != 1) return 2; }
+	    else { if (!rd(&kk)) return 2; }
 	    cx e00, e10e01, e11, s[4], sdut, res = NAN;
 	    if (!rcx(&e00) || !rcx(&e10e01) || !rcx(&e11)) return 3;
 	    for (int i = 0; i < 4; ++i) if (!rcx(&s[i])) return 3;
 	    if (!rcx(&sdut)) return 3;
-	    double k = ldexp(1.0, e);
+	    double k = strcmp(op, "cal1") == 0 ? ldexp(1.0, e) : kk;
 	    double f[1] = { 1.0e+9 };
 	    int rc_solve = -2, rc_apply = -2, ci = -1;
 	    eh_calls = 0; eh_cat = -1;
